@@ -153,3 +153,79 @@ func VerifC11AtomicV1() {
 	}
 	nd.Reach("end")
 }
+
+// VerifC11AbortedV1: the SDK v1 twin of VerifC11Aborted.
+func VerifC11AbortedV1() {
+	c := vClient(false)
+	nd.Assert(AddIndex(c, vTbl, "idx", "g", "") == nil, "setup-addindex")
+	_, perr := c.PutItem(&dynamodb.PutItemInput{TableName: aws.String(vTbl), Item: vItem{"p": vS("k"), "g": vS("gv"), "v": vS("x")}})
+	nd.Assert(perr == nil, "setup-put")
+	tbl := aws.String(vTbl)
+	bad := aws.String("v = = :x")
+	vals := vItem{":x": vS("x")}
+	aborting := []func() error{
+		func() error {
+			_, e := c.Scan(&dynamodb.ScanInput{TableName: tbl, FilterExpression: bad, ExpressionAttributeValues: vals})
+			return e
+		},
+		func() error {
+			_, e := c.Scan(&dynamodb.ScanInput{TableName: tbl, IndexName: aws.String("idx"), FilterExpression: bad, ExpressionAttributeValues: vals})
+			return e
+		},
+		func() error {
+			_, e := c.Query(&dynamodb.QueryInput{TableName: tbl, KeyConditionExpression: aws.String("p = :p"), FilterExpression: bad, ExpressionAttributeValues: vItem{":p": vS("k"), ":x": vS("x")}})
+			return e
+		},
+		func() error {
+			_, e := c.Query(&dynamodb.QueryInput{TableName: tbl, KeyConditionExpression: aws.String("p = = :p"), ExpressionAttributeValues: vItem{":p": vS("k")}})
+			return e
+		},
+		func() error {
+			_, e := c.PutItem(&dynamodb.PutItemInput{TableName: tbl, Item: vItem{"p": vS("k")}, ConditionExpression: bad, ExpressionAttributeValues: vals})
+			return e
+		},
+		func() error {
+			_, e := c.UpdateItem(&dynamodb.UpdateItemInput{TableName: tbl, Key: vItem{"p": vS("k")}, UpdateExpression: aws.String("SET v = :x"), ConditionExpression: bad, ExpressionAttributeValues: vals})
+			return e
+		},
+		func() error {
+			_, e := c.DeleteItem(&dynamodb.DeleteItemInput{TableName: tbl, Key: vItem{"p": vS("k")}, ConditionExpression: bad, ExpressionAttributeValues: vals})
+			return e
+		},
+		func() error {
+			_, e := c.UpdateItem(&dynamodb.UpdateItemInput{TableName: tbl, Key: vItem{"p": vS("k")}, UpdateExpression: aws.String("SET v = = :x"), ExpressionAttributeValues: vals})
+			return e
+		},
+		func() error {
+			_, e := c.BatchWriteItem(&dynamodb.BatchWriteItemInput{RequestItems: map[string][]*dynamodb.WriteRequest{vTbl: {{}}}})
+			return e
+		},
+		func() error {
+			_, e := c.GetItem(&dynamodb.GetItemInput{TableName: tbl, Key: vItem{"p": {N: aws.String("1")}}})
+			return e
+		},
+		func() error {
+			_, e := c.Query(&dynamodb.QueryInput{TableName: tbl, IndexName: aws.String("nosuch"), KeyConditionExpression: aws.String("p = :p"), ExpressionAttributeValues: vItem{":p": vS("k")}})
+			return e
+		},
+	}
+	err, panicked := vCatch(aborting[nd.Choice("call", len(aborting))])
+	nd.Assert(err != nil || panicked, "C11v1-malformed-request-is-refused")
+	if panicked {
+		nd.Reach("aborted-with-panic")
+	}
+	switch nd.Choice("next", 4) {
+	case 0:
+		_, e := c.PutItem(&dynamodb.PutItemInput{TableName: tbl, Item: vItem{"p": vS("z")}})
+		nd.Assert(e == nil, "C11v1-client-usable-after-aborted-call [PutItem]")
+	case 1:
+		out, serr := c.Scan(&dynamodb.ScanInput{TableName: tbl})
+		nd.Assert(serr == nil && len(out.Items) == 1, "C11v1-client-usable-after-aborted-call [Scan]")
+	case 2:
+		_, derr := c.DescribeTable(&dynamodb.DescribeTableInput{TableName: tbl})
+		nd.Assert(derr == nil, "C11v1-client-usable-after-aborted-call [DescribeTable]")
+	case 3:
+		EmulateFailure(c, FailureConditionNone)
+	}
+	nd.Reach("end")
+}
